@@ -189,7 +189,7 @@ class Verifier:
             return
         st = eng.st
         roots = dict(names)
-        if c.invariants:
+        if c.invariants and c.invariants != 'post':
             pre_sv0 = SV(eng, st, names)
             for nm, cl in self.invariant_clauses(eng, pre_sv0, names):
                 st.assume(hyp_of(cl))
@@ -271,6 +271,8 @@ class Verifier:
                 self.check_frame(eng, c, names, old, c.modifies, f'frame:{tag}->return')
                 return
         new = SV(eng, st, names)
+        if fi.node.name == '__init__' and isinstance(names.get('self'), ObjV):
+            eng.coerce_types(names['self'], fi.cls)
         if outcome[0] == 'return':
             res = outcome[1]
             ctx = Ctx(eng, old, new, V(eng, st, res))
@@ -293,6 +295,8 @@ class Verifier:
                 eng.oblige(f"raises:{q}:{exc}:only-when", 'post', r['when'](ctx))
             if r.get('unchanged', True):
                 self.check_frame(eng, c, names, old, [], f'raises-unchanged:{exc}')
+            elif fi.node.name == '__init__':
+                pass        # the constructor raised: no object exists
             else:
                 if c.invariants:
                     for nm, cl in self.invariant_clauses(eng, new, names):
@@ -302,6 +306,8 @@ class Verifier:
             raise OutOfSubset("generator verified as a plain function")
 
     def check_frame(self, eng, c, names, old, modifies, kind):
+        if '*' in modifies:
+            return
         st = eng.st
         q = c.qual
         new_leaves, new_ids = walk_leaves(names)
